@@ -163,9 +163,15 @@ def run_history(seed, env, res, probes, allow_subprocess=False, env_tp=None):
     _I2._supported = _KI._supported = None  # (state hygiene between histories: style support undetermined)
     probes.reset()
     sizes_seen = []
+    pending = []
     steps = rnd.randint(5, 40)
     for step in range(steps):
-        op = rnd.choice(["resize", "resize", "resize_back", "resize_back", "pixels", "swap_on", "swap_off", "q_on", "q_off", "ratio", "xt", "read", "read", "read", "read_ratio", "probe", "probe", "probe_resize", "read_colours", "read_name", "read_on_kitty", "read_support", "read_forced_render", "read_kitty_support", "read_interrupted"] + (["subprocess"] if allow_subprocess else []))
+        if not pending and rnd.random() < 0.04:
+            # a directed stretch: the same fact read while queries are disabled and again
+            # after they have been re-enabled
+            fact = rnd.choice(["read_kitty_support", "read_support", "read_forced_render", "read_name", "read_colours", "read_on_kitty"])
+            pending.extend(["q_off", fact, "q_on", fact])
+        op = pending.pop(0) if pending else rnd.choice(["resize", "resize", "resize_back", "resize_back", "pixels", "swap_on", "swap_off", "q_on", "q_off", "ratio", "xt", "read", "read", "read", "read_ratio", "probe", "probe", "probe_resize", "read_colours", "read_name", "read_on_kitty", "read_support", "read_forced_render", "read_kitty_support", "read_interrupted"] + (["subprocess"] if allow_subprocess else []))
         ops.append(op)
         if m.term[:2] not in sizes_seen:
             sizes_seen.append(m.term[:2])
